@@ -393,13 +393,25 @@ static std::string text_alt(const std::string& tok, int a) {
   return TEXT_ALTS[a];
 }
 
+// Sharding of the 2-deviation spaces: the subtree below the FIRST deviation at choice point p belongs to
+// shard p mod n.  A shard that meets a foreign first deviation abandons the execution at once; the
+// explorer then never sees the choice points below it, so the whole foreign subtree costs one partial run.
+struct SkipSubtree {};
+static bool FIRSTDEV_SHARDING = false;
+static int NDEV = 0;
+static int pick(vx::Explorer& ex, int n, const char* label) {
+  size_t idx = ex.pos; int c = ex.choose(n, label);
+  if (c != 0) { ++NDEV; if (FIRSTDEV_SHARDING && NDEV == 1 && !S.mine((long long)idx)) throw SkipSubtree(); }
+  return c;
+}
+
 static std::string deviate_text(const Sol& s, vx::Explorer& ex) {
   solref::TextDoc d = solref::build_text(s), o;
   for (auto& l : d.lines) {
-    int lc = ex.choose(3, "line keep/delete/duplicate");
+    int lc = pick(ex, 3, "line keep/delete/duplicate");
     if (lc == 1) continue;
     solref::Line m = l;
-    if (lc == 0) for (auto& t : m.t) if (t.numeric) { int a = ex.choose(11, "token"); if (a) t.s = text_alt(t.s, a - 1); }
+    if (lc == 0) for (auto& t : m.t) if (t.numeric) { int a = pick(ex, 11, "token"); if (a) t.s = text_alt(t.s, a - 1); }
     o.lines.push_back(m); if (lc == 2) o.lines.push_back(m);
   }
   return o.render();
@@ -407,19 +419,19 @@ static std::string deviate_text(const Sol& s, vx::Explorer& ex) {
 static std::string deviate_binary(const Sol& s, vx::Explorer& ex) {
   solref::BinDoc d = solref::build_binary(s), o;
   for (auto& r0 : d.recs) {
-    int rc = ex.choose(3, "record keep/delete/duplicate");
+    int rc = pick(ex, 3, "record keep/delete/duplicate");
     if (rc == 1) continue;
     solref::Record r = r0;
     if (rc == 0) {
       uint32_t len = (uint32_t)r.payload().size();
-      int lo = ex.choose(5, "open length"); if (lo) { r.open_override = true; r.open_len = lo == 1 ? 0 : lo == 2 ? len + 1 : lo == 3 ? len - 1 : 2147483647u; }
-      int lc = ex.choose(6, "close length"); if (lc == 5) r.no_close = true; else if (lc) { r.close_override = true; r.close_len = lc == 1 ? 0 : lc == 2 ? len + 1 : lc == 3 ? len - 1 : 2147483647u; }
+      int lo = pick(ex, 5, "open length"); if (lo) { r.open_override = true; r.open_len = lo == 1 ? 0 : lo == 2 ? len + 1 : lo == 3 ? len - 1 : 2147483647u; }
+      int lc = pick(ex, 6, "close length"); if (lc == 5) r.no_close = true; else if (lc) { r.close_override = true; r.close_len = lc == 1 ? 0 : lc == 2 ? len + 1 : lc == 3 ? len - 1 : 2147483647u; }
       for (auto& f : r.f) {
-        if (f.type == solref::Field::I32) { int a = ex.choose(8, "int field");
+        if (f.type == solref::Field::I32) { int a = pick(ex, 8, "int field");
           switch (a) { case 1: f.i = 0; break; case 2: f.i = 1; break; case 3: f.i = -1; break; case 4: f.i = (int32_t)((uint32_t)f.i + 1u); break;
                        case 5: f.i = (int32_t)((uint32_t)f.i - 1u); break; case 6: f.i = INT_MAX; break; case 7: f.i = INT_MIN; break; default: break; } }
-        else if (f.type == solref::Field::F64) { int a = ex.choose(7, "double field"); if (a) f.d = a == 1 ? 0 : a == 2 ? 1 : a == 3 ? -1 : a == 4 ? f.d + 1 : a == 5 ? 1e300 : NAN; }
-        else { int a = ex.choose(5, "raw field"); if (a == 1) f.raw.clear(); else if (a == 2) f.raw.assign(f.raw.size(), 'x'); else if (a == 3 && !f.raw.empty()) f.raw.pop_back(); else if (a == 4) f.raw += 'y'; }
+        else if (f.type == solref::Field::F64) { int a = pick(ex, 7, "double field"); if (a) f.d = a == 1 ? 0 : a == 2 ? 1 : a == 3 ? -1 : a == 4 ? f.d + 1 : a == 5 ? 1e300 : NAN; }
+        else { int a = pick(ex, 5, "raw field"); if (a == 1) f.raw.clear(); else if (a == 2) f.raw.assign(f.raw.size(), 'x'); else if (a == 3 && !f.raw.empty()) f.raw.pop_back(); else if (a == 4) f.raw += 'y'; }
       }
     }
     o.recs.push_back(r); if (rc == 2) o.recs.push_back(r);
@@ -431,9 +443,9 @@ static std::string deviate_binary(const Sol& s, vx::Explorer& ex) {
 static void family_base_and_dev(const std::vector<Base>& B) {
   // bound 1: combos (base, format, sizes, handler) are dealt to shards round-robin and every sequence
   // with <= 1 deviation is executed inside the combo.
-  // bound 2 (thorough; read_all and SOLHandler_Easy at equal sizes): every shard enumerates the combo's
-  // sequences and executes those whose running index is its own (balances the large spaces).
-  long long combo = 0, pairidx = 0;
+  // bound 2 (thorough; read_all and SOLHandler_Easy at equal sizes): every shard walks the combo and owns
+  // the subtrees below 'its' first-deviation points (see pick()).
+  long long combo = 0;
   for (size_t bi = 0; bi < B.size(); ++bi) for (int binary = 0; binary < 2; ++binary) {
     auto SZ = size_variants(B[bi].s);
     for (size_t zi = 0; zi < SZ.size(); ++zi) for (int h = 0; h < N_HANDLERS; ++h) {
@@ -444,18 +456,21 @@ static void family_base_and_dev(const std::vector<Base>& B) {
       long long c = combo++;
       if (bound == 1 && !S.mine(c)) continue;
       vx::Explorer ex; ex.max_deviations = bound;
+      FIRSTDEV_SHARDING = bound == 2;
       ex.run_all([&] {
         Input in; in.nvars = SZ[zi].nvars; in.ncons = SZ[zi].ncons; in.handler = h;
-        in.bytes = binary ? deviate_binary(B[bi].s, ex) : deviate_text(B[bi].s, ex);
-        int nd = ex.deviations_upto(ex.trace.size());
-        if (bound == 2 && !S.mine(pairidx++)) return;
+        NDEV = 0;
+        try { in.bytes = binary ? deviate_binary(B[bi].s, ex) : deviate_text(B[bi].s, ex); }
+        catch (const SkipSubtree&) { return; }
+        int nd = NDEV;
+        if (bound == 2 && nd == 0 && S.i != 0) return;
         in.family = std::string(nd == 0 ? "base" : nd == 1 ? "dev1" : "dev2") + (binary ? "_binary" : "_text") + ":" + B[bi].name + ":" + SZ[zi].name;
         in.valid_base = nd == 0 && zi == 0;
         if (!COUNT_ONLY) emit(in, false);
         if (nd) R.stat(nd == 1 ? "deviation1_inputs" : "deviation2_inputs");
       });
-      if (bound == 1 || S.i == 0) { R.stat("explorer_executions", ex.executions); R.stat("explorer_choice_points", ex.choice_points); }
-      if (COUNT_ONLY && S.i == 0) std::fprintf(stderr, "combo %s %s %s %s bound=%d executions=%lld\n", B[bi].name.c_str(), binary ? "binary" : "text", SZ[zi].name, handler_name(h), bound, ex.executions);
+      R.stat("explorer_executions", ex.executions); R.stat("explorer_choice_points", ex.choice_points);
+      if (COUNT_ONLY) std::fprintf(stderr, "combo %s %s %s %s bound=%d executions=%lld\n", B[bi].name.c_str(), binary ? "binary" : "text", SZ[zi].name, handler_name(h), bound, ex.executions);
     }
   }
 }
